@@ -171,6 +171,13 @@ def splitMessage (isURL : Bytes → Bool) (input : Bytes) (maxWidth : Nat) : Lis
   let out := splitLoop isURL maxWidth words {} [[]]
   (out.filter (fun l => !l.isEmpty)).map (toValidUTF8 [0x3F])
 
+/-- `splitMessage(input, maxWidth)` with Go's `int` width: the entry point of the translator's model-callee table
+    (tools/extract/translate.go `modelCalleeTable`).  A negative width is outside the modelled domain (fail-closed);
+    `Event.split` never passes one. -/
+def splitMessageGo (isURL : Bytes → Bool) (input : Bytes) (maxWidth : Int) : Except Fault (List Bytes) :=
+  if 0 ≤ maxWidth then .ok (splitMessage isURL input maxWidth.toNat)
+  else .error (.unsupported "splitMessage: negative width")
+
 /-- `Event.split(maxLength)` -/
 def eventSplit (isURL : Bytes → Bool) (e : Event) (maxLength : Int) : List Event :=
   if e.params.length < 1 || (e.command != PRIVMSG && e.command != NOTICE) then [e]
